@@ -2157,9 +2157,13 @@ ure_write_dfa(ure_dfa_t dfa, FILE *out)
   }
 }
 
-#define _ure_issep(cc) _ure_matches_properties(cc, _URE_SEPARATOR)
 #define _ure_isbrk(cc) ((cc) == '\n' || (cc) == '\r' || (cc) == 0x2028 ||\
                         (cc) == 0x2029)
+/* zvbi: the Unicode separator property is compiled out above (and the
+   arguments were swapped), so line breaks, as put between the rows of a
+   Teletext page, are the separators. */
+#define _ure_issep(cc) (_ure_isbrk(cc) || \
+			_ure_matches_properties(_URE_SEPARATOR, cc))
 
 int
 #ifdef __STDC__
